@@ -7,6 +7,7 @@ package main
 import (
 	"bytes"
 	"context"
+	"encoding/binary"
 	"encoding/json"
 	"fmt"
 	"os"
@@ -151,6 +152,67 @@ func TestVerifC10(t *testing.T) {
 		}
 		src["D"] = &loaded{built: A.built, paths: &IndexPaths{CidToOffsetAndSize: one("*cid-to-offset-and-size.index"), SlotToCid: one("*slot-to-cid.index"),
 			SignatureToCid: one("*sig-to-cid.index"), SignatureExists: one("*sig-exists.index")}, gsfaDir: one("*gsfa.indexdir")}
+	}
+	// Ae / Ar / Am: A's own files with one recorded identity field replaced in place
+	{
+		dir := t.TempDir()
+		epochKey := append([]byte{5}, []byte("epoch")...)
+		rootKey := append([]byte{7}, []byte("rootCid")...)
+		e2b := make([]byte, 8)
+		binary.LittleEndian.PutUint64(e2b, e2)
+		zroot := src["C"].built.Root.Bytes()
+		patch := func(from, to string, key []byte, val []byte) {
+			b, err := os.ReadFile(from)
+			if err != nil {
+				t.Fatal(err)
+			}
+			i := bytes.Index(b[:minInt(len(b), 1<<20)], key)
+			if i < 0 || int(b[i+len(key)]) != len(val) {
+				t.Fatalf("identity field %q not found in %s", key[1:], from)
+			}
+			copy(b[i+len(key)+1:], val)
+			os.MkdirAll(filepath.Dir(to), 0o755)
+			if err := os.WriteFile(to, b, 0o644); err != nil {
+				t.Fatal(err)
+			}
+		}
+		cp := func(from, to string) {
+			b, _ := os.ReadFile(from)
+			os.MkdirAll(filepath.Dir(to), 0o755)
+			os.WriteFile(to, b, 0o644)
+		}
+		mk := func(name string, key, val []byte, manifestOnly bool) *loaded {
+			d := filepath.Join(dir, name)
+			p := &IndexPaths{CidToOffsetAndSize: filepath.Join(d, "cid"), SlotToCid: filepath.Join(d, "slot"), SignatureToCid: filepath.Join(d, "sig"),
+				SignatureExists: filepath.Join(d, "sigexists"), SlotToBlocktime: filepath.Join(d, "blocktime")}
+			if !manifestOnly {
+				patch(A.paths.CidToOffsetAndSize, p.CidToOffsetAndSize, key, val)
+				patch(A.paths.SlotToCid, p.SlotToCid, key, val)
+				patch(A.paths.SignatureToCid, p.SignatureToCid, key, val)
+				patch(A.paths.SignatureExists, p.SignatureExists, key, val)
+				if name == "Ae" { // the slot-to-blocktime index: magic(14) start(8) end(8) epoch(8)
+					b, _ := os.ReadFile(A.paths.SlotToBlocktime)
+					copy(b[30:38], val)
+					os.MkdirAll(d, 0o755)
+					os.WriteFile(p.SlotToBlocktime, b, 0o644)
+				} else {
+					cp(A.paths.SlotToBlocktime, p.SlotToBlocktime)
+				}
+			}
+			g := filepath.Join(d, "gsfa")
+			for _, fn := range []string{"linked-log", "pubkey-to-offset-and-size.index", "manifest"} {
+				from, to := filepath.Join(A.gsfaDir, fn), filepath.Join(g, fn)
+				if fn == "manifest" || (fn != "linked-log" && !manifestOnly) {
+					patch(from, to, key, val)
+				} else {
+					cp(from, to)
+				}
+			}
+			return &loaded{built: A.built, paths: p, gsfaDir: g}
+		}
+		src["Ae"] = mk("Ae", epochKey, e2b, false)
+		src["Ar"] = mk("Ar", rootKey, zroot, false)
+		src["Am"] = mk("Am", epochKey, e2b, true)
 	}
 	carOf := map[string]string{"X": A.built.CarPath, "Z": src["C"].built.CarPath}
 	cache := vCache(t)
